@@ -37,6 +37,7 @@ type world struct {
 	srv  *turn.Server
 	sock []*simnet.UDPSock
 	txc  uint32
+	last *granted // the Allocate most recently answered with success
 }
 
 func newWorld(realm string, h turn.AuthHandler) (*world, error) {
@@ -121,7 +122,11 @@ func (w *world) allocate(username, password string, wantRealm string) (string, *
 		return fmt.Sprintf("harness:challenge-realm=%q", realm), ch
 	}
 	tx = w.tx()
-	resp := w.exchange(s, tx, signedAllocate(tx, username, string(realm), string(nonce), password))
+	raw := signedAllocate(tx, username, string(realm), string(nonce), password)
+	resp := w.exchange(s, tx, raw)
+	if resp != nil && resp.Method == wire.Allocate && resp.Class == wire.Success {
+		w.last = &granted{s: s, tx: tx, raw: raw, nonce: string(nonce), realm: string(realm), user: username}
+	}
 	switch {
 	case resp == nil:
 		return "silence", nil
@@ -139,6 +144,30 @@ func (w *world) allocate(username, password string, wantRealm string) (string, *
 	}
 
 	return "other", resp
+}
+
+// granted remembers the Allocate that was last answered with success: socket, transaction id, datagram.
+type granted struct {
+	s                  *simnet.UDPSock
+	tx                 [12]byte
+	raw                []byte
+	nonce, realm, user string
+}
+
+// again sends an Allocate with the transaction id of the granted one from the same socket (what a
+// retransmission looks like to the server) and classifies the answer.
+func (w *world) again(g *granted, raw []byte) string {
+	resp := w.exchange(g.s, g.tx, raw)
+	switch {
+	case resp == nil:
+		return "silence"
+	case resp.Class == wire.Success:
+		return "success"
+	case resp.Class == wire.Error:
+		return fmt.Sprintf("error %d", resp.ErrorCode())
+	}
+
+	return "other"
 }
 
 // TestC17EndToEnd: a real turn.Server on simnet whose AuthHandler is the
@@ -200,6 +229,7 @@ outer:
 						return
 					}
 					defer w.close()
+					var first *granted
 					for i, at := range ats {
 						sleepTo(at)
 						now := time.Now()
@@ -224,7 +254,33 @@ outer:
 								Signature: "e2e:expired-not-refused:" + b.Kind + ":" + out,
 								Detail:    fmt.Sprintf("at unix %d (%+dms from exact expiry), stamp %d: %s", now.Unix(), (at-ens)/1e6, stamp, out), Replay: ec})
 						}
+						if !want && first != nil {
+							// the very datagram that was granted while the credential was valid, sent again now that it has
+							// expired (same socket, same transaction id: a retransmission to the server's eyes)
+							ec.Presented = "replay-of-the-granted-allocate-after-expiry"
+							out := w.again(first, first.raw)
+							r.Evaluations++
+							lc[fmt.Sprintf("e2e-replay:%s|%s|%s", b.Kind, durClass(d), out)]++
+							if out == "success" {
+								r.Violate(rep.Violation{Oracle: "an expired credential authenticates nothing, whatever the transaction id",
+									Signature: "e2e:expired-replay-answered-with-success:" + b.Kind,
+									Detail:    fmt.Sprintf("at unix %d, stamp %d: the Allocate granted earlier, re-sent with its transaction id, got %s", now.Unix(), stamp, out), Replay: ec})
+							}
+							first = nil
+						}
 						if i == 0 {
+							if want && out == "success" && w.last != nil {
+								first = w.last
+								// the transaction id of the granted Allocate, signed with the password of another secret
+								ec.Presented = "granted-transaction-id-with-pass-of-other-secret"
+								o2 := w.again(first, signedAllocate(first.tx, c.User, first.realm, first.nonce, refPassword(b.Secret+"x", c.User)))
+								r.Evaluations++
+								lc[fmt.Sprintf("e2e-forged:%s|%s|%s", b.Kind, ec.Presented, o2)]++
+								if o2 == "success" {
+									r.Violate(rep.Violation{Oracle: "forged credentials are refused with an error response",
+										Signature: "e2e:forged-not-refused:" + b.Kind + ":" + ec.Presented + ":" + o2, Replay: ec})
+								}
+							}
 							// forged: right name, password of another secret; and a bumped stamp with the genuine password
 							for _, f := range [][3]string{
 								{"pass-of-other-secret", c.User, refPassword(b.Secret+"x", c.User)},
